@@ -189,7 +189,7 @@ def tiny_model():
     return _MODEL['m']
 
 
-def real_misfit(survey, compute=False):
+def real_misfit(survey, compute=False, layered=False):
     """The real Simulation.misfit of a survey.  Cheapest faithful route: the
     survey already carries data.synthetic and the Simulation is told that the
     fields are computed (``_computed = True``, what ``compute()`` sets), so
@@ -200,7 +200,9 @@ def real_misfit(survey, compute=False):
     sim = emg3d.Simulation(survey, tiny_model(), gridding='same',
                            max_workers=1, verb=-1, tqdm_opts=False,
                            receiver_interpolation='linear',
-                           solver_opts={'maxit': 1, 'verb': 0})
+                           solver_opts={'maxit': 1, 'verb': 0},
+                           **({'layered': True, 'layered_opts': {
+                               'method': 'midpoint'}} if layered else {}))
     if not compute:
         sim._computed = True
     with warnings.catch_warnings():
@@ -234,7 +236,8 @@ def formula(c):
     v = e1_values(c)
     shape = v['shape']
     sdmode = c['sd']
-    compute = c.get('route') == 'compute'
+    layered = c.get('route') == 'layered'
+    compute = c.get('route') in ('compute', 'layered')
     ident = tuple(tuple(range(n)) for n in shape)
     viol = []
     compared = 0
@@ -293,7 +296,7 @@ def formula(c):
     # misfit through the real Simulation
     if std_ref is None:
         try:
-            real_misfit(survey, compute)
+            real_misfit(survey, compute, layered)
             viol.append({'cls': 'misfit-without-standard_deviation',
                          'what': 'misfit returned although no std defined'})
         except ValueError:
@@ -301,11 +304,16 @@ def formula(c):
         return {'viol': viol, 'compared': compared, 'nontrivial': False,
                 'outcome': ('no-std',), 'count': {'no_std_raises': 1}}
 
-    sim, m = real_misfit(survey, compute)
+    sim, m = real_misfit(survey, compute, layered)
     dsyn = np.asarray(sim.data.synthetic.data) if compute else v['dsyn']
-    if compute and not np.isfinite(dsyn).all():
+    # every finite observation needs its response (the layered mode only
+    # computes the slots that have data)
+    need = fin if layered else np.ones(shape, dtype=bool)
+    if compute and not np.isfinite(dsyn)[need].all():
         viol.append({'cls': 'synthetic-not-finite-after-compute',
-                     'what': 'compute() left NaN in data.synthetic'})
+                     'what': 'compute() left NaN in data.synthetic where '
+                             'an observation is finite' + (
+                                 ' (layered mode)' if layered else '')})
     m_ref = ref.misfit(dsyn, v['dobs'], std_ref)
     compared += 1
     if not abs(m - m_ref) <= RTOL*abs(m_ref):
@@ -383,6 +391,11 @@ def e1_cases(tier):
         for nf, re, sd, nan in combos:
             comp.append({'shape': shape, 'nf': nf, 're': re, 'sd': sd,
                          'nan': nan, 'route': 'compute'})
+        # the same through the layered (1-D) mode, whose responses exist
+        # only where observations are finite
+        for nan in ('one', 'row', 'none'):
+            comp.append({'shape': shape, 'nf': 'rec', 're': 'freq',
+                         'sd': 'unset', 'nan': nan, 'route': 'layered'})
     return out, comp
 
 
